@@ -662,13 +662,16 @@ def model_zoo(rng, quick):
         # (name, d, n, const, positive, distribution factory, labels)
         ('d2-gauss-class', 2, 40, (), (), lambda L: U.GaussianUnivariate, None),
         ('d3-default-selection-const', 3, 50, (2,), (1,), lambda L: None, None),
-        ('d3-name-gamma', 3, 40, (), (0, 1, 2), lambda L: 'copulas.univariate.gamma.GammaUnivariate', None),
+        ('d3-name-gamma-unsorted-labels', 3, 40, (), (0, 1, 2), lambda L: 'copulas.univariate.gamma.GammaUnivariate', ['price', 'amount', 'count']),
         ('d4-dict-mixed', 4, 60, (), (1,), lambda L: {L[0]: U.GaussianKDE, L[1]: U.GammaUnivariate, L[2]: U.UniformUnivariate,
-                                                      L[3]: 'copulas.univariate.student_t.StudentTUnivariate'}, None),
-        ('d4-instance-uniform-const-first', 4, 30, (0,), (), lambda L: U.UniformUnivariate(), None),
+                                                      L[3]: 'copulas.univariate.student_t.StudentTUnivariate'}, ['w', 'b', 'z', 'a']),
+        ('d4-instance-uniform-const-first', 4, 30, (0,), (), lambda L: U.UniformUnivariate(), ['k2', 'k10', 'k1', 'k0']),
         ('d5-dict-partial-intlabels', 5, 50, (3,), (4,), lambda L: {L[1]: U.BetaUnivariate, L[4]: U.LogLaplace,
                                                                     L[2]: U.TruncatedGaussian}, 'int'),
-        ('d6-gauss-two-const', 6, 40, (1, 4), (), lambda L: U.GaussianUnivariate, None),
+        ('d6-gauss-two-const', 6, 40, (1, 4), (), lambda L: U.GaussianUnivariate, ['f', 'b', 'e', 'a', 'd', 'c']),
+        # HISTORY on one object: fit(other table, same labels); sample; density; re-fit on the table under test
+        ('d3-refit-after-sample', 3, 40, (), (1,), lambda L: U.GaussianUnivariate, ['y', 'x', 'm'], 'refit'),
+        ('d4-refit-after-sample-const', 4, 30, (2,), (), lambda L: U.UniformUnivariate, ['q', 'c', 'p', 'b'], 'refit'),
         ('d2-kde-wide-labels', 2, 25, (), (), lambda L: U.GaussianKDE, ['col one', 'z']),
         ('d3-all-const', 3, 12, (0, 1, 2), (), lambda L: U.GaussianUnivariate, None),
     ]
@@ -682,9 +685,9 @@ def model_zoo(rng, quick):
         ]
     out = []
     reps = 1 if quick else 3                         # thorough: every configuration on three different tables
-    specs = [(name if r == 0 else f'{name}#{r}', d, n + 7 * r, const, positive, dist, labels)
-             for r in range(reps) for (name, d, n, const, positive, dist, labels) in specs]
-    for name, d, n, const, positive, dist, labels in specs:
+    specs = [(sp[0] if r == 0 else f'{sp[0]}#{r}', sp[1], sp[2] + 7 * r) + tuple(sp[3:7]) + (sp[7] if len(sp) > 7 else None,)
+             for r in range(reps) for sp in specs]
+    for name, d, n, const, positive, dist, labels, hist in specs:
         lab = list(range(d)) if labels == 'int' else (labels or [chr(ord('a') + j) for j in range(d)])
         df = make_table(rng, d, n, const, positive, labels=[str(x) for x in lab])
         dd = dist(lab)
@@ -694,7 +697,13 @@ def model_zoo(rng, quick):
             saved = np.random.get_state()
             try:
                 np.random.seed(12345)              # Univariate selection may draw from the global generator
-                if labels == 'int':
+                if hist == 'refit':
+                    df0 = make_table(np.random.default_rng(d * 1000 + n), d, n + 5, (), (), labels=[str(x) for x in lab], rho_scale=0.95)
+                    m.fit(df0)
+                    m.sample(6)
+                    m.probability_density(df0.iloc[:3])
+                    m.fit(df)
+                elif labels == 'int':
                     m.fit(df.to_numpy())
                     df.columns = lab
                 else:
